@@ -124,6 +124,11 @@ def run_case(spec):
             cs = [complex(rng.choice([0.5, 2.0, -2.0, 1.5])) * (1j if rng.random() < 0.5 else 1) + (0.25 if rng.random() < 0.3 else 0) for _ in range(p.n_par)]
             bitwise = False
             counters["complex_scale"] += 1
+        if p.notes.get("int_h0"):
+            # integer-typed terms become float in the scaled twin: numpy multiplies int @ float and float @ float with
+            # different kernels (summation order), so the two runs may differ in the last bit - compared with a tolerance
+            bitwise = False
+
         def factor(n):
             f = GR(1) if p.exact else 1.0
             for c, k in zip(cs, n):
